@@ -621,6 +621,34 @@ theorem nested_read_matches (fi j : Nat) :
 example : routeY E (.assignX [false, true, false]) 3 = [(0, .lhs 0), (1, .dropped), (2, .lhs 2)] ∧
     routeY E (.ret 1) 1 = [(0, .result 1)] ∧ routeY E (.deflt 7) 2 = [(0, .tmp 7), (1, .tmp 8)] := by decide
 
+/-! ### `q, r := hp.F(…)` executed repeatedly, earlier variables still referenced -/
+
+theorem defineReads_always : ∀ rs : List Rep, defineReadsY .always rs = rs
+  | [] => rfl
+  | [_] => rfl
+  | r :: r' :: rest => by
+    have ih := defineReads_always (r' :: rest)
+    simp [defineReadsY, DefineCell.recreates, ih]
+
+/-- **Every execution of `q, r := hp.F(…)` declares new variables** (`defineXCell`, regenerated from the aAssignX arm of callBin:
+    the cell is re-created unconditionally): for EVERY sequence of results stored by the successive executions — zero values
+    included —, the pointer or closure taken after the k-th execution still reads the k-th result when all executions are done. -/
+theorem define_cells_fresh (rs : List Rep) : defineReadsY E.defineXCell rs = rs := defineReads_always rs
+
+theorem define_cells_fresh_kth (rs : List Rep) (k : Nat) : (defineReadsY E.defineXCell rs)[k]? = rs[k]? := by
+  rw [define_cells_fresh]
+
+theorem define_cells_generated (rs : List Rep) : defineReadsY Generated.C07.facts.defineXCell rs = rs := by
+  rw [facts_tie]; exact define_cells_fresh rs
+
+/-- the cell re-created only when it does not hold the zero value (seeded change C07-4): results 0, 1, 2, 0 — the reference to the
+    first variable reads 1, the second execution overwrote it; without any re-creation every reference reads the last result -/
+theorem define_cell_zero_witness :
+    defineReadsY .whenNonZero [.int 0, .int 1, .int 2, .int 0] = [.int 1, .int 1, .int 2, .int 0] ∧
+    defineReadsY .whenNonZero [.nil, .nil, .tuple (.cons (.int 0) .nil), .int 7] = [.int 7, .int 7, .int 7, .int 7] ∧
+    defineReadsY .never [.int 1, .int 2, .int 3] = [.int 3, .int 3, .int 3] ∧
+    defineReadsY .whenNonZero [.int 1, .int 2, .int 3] = [.int 1, .int 2, .int 3] := ⟨rfl, rfl, rfl, rfl⟩
+
 /-! ### a host call as a condition -/
 
 theorem branchReads_both : ∀ (init : Bool) (rs : List Bool), branchReadsY .both init rs = rs := by
